@@ -10,7 +10,7 @@ from concurrent.futures import ThreadPoolExecutor
 def body(run):
     th = run.thorough()
 
-    # the design-level runs do not depend on the driver: they run beside it (one TLC at a time)
+    # the design-level runs do not depend on the driver: they run beside it (two chains)
     def design():
         run.mc("MC_DataX", cfg="MC_DataX_thorough.cfg" if th else "MC_DataX.cfg", coverage=not th, workers=run.pick(4, 16))
         if th:
@@ -19,7 +19,7 @@ def body(run):
     def design_keep():
         run.mc("MC_DataXKeep", cfg="MC_DataXKeep_thorough.cfg" if th else "MC_DataXKeep.cfg", workers=run.pick(4, 16))
 
-    pool = ThreadPoolExecutor(max_workers=run.pick(2, 1))
+    pool = ThreadPoolExecutor(max_workers=2)
     mcs = [pool.submit(design), pool.submit(design_keep)]
     try:
         out, meta = run.drive("c01")
